@@ -234,7 +234,8 @@ func VerifC17_SnapshotRestoreRoundTrip() {
 	panicked, msg := verifrt.Catch(func() { db.RestoreFromReader(f) })
 	_ = f.Close()
 	verifrt.Settle()
-	verifrt.Assert(!panicked, "C17 restoring the snapshot does not fail ("+msg+")")
+	verifrt.Logf("panic message (if any): %v", msg) // not part of the label: executor and native wording differ
+	verifrt.Assert(!panicked, "C17 restoring the snapshot does not fail")
 
 	env.view(func(tx *bbolt.Tx) {
 		verifrt.Assert(verifDumpEqual(stateA, verifDumpData(tx)), "C17 after the restore the logical content equals the state at snapshot time")
